@@ -3,14 +3,14 @@
    ESC <s>             -> ESC <html.escape> <markupsafe escape> <unescape(html.escape)> <unescape(markupsafe)> <no_markup both>
    SINK <0|1> <s>      -> SINK <0|1>
    AE <name>           -> AE <0|1>   (autoescape_selected)
-   CFG                 -> CFG <9 flags of faithful_cfg> <docs_escaped> ; one  T <name> <autoescape 0|1>  per template name; END
-   TAG <is_array> <elem_str> <full_name> <major> <minor> <root>  -> TAG <tag_id> <url>
+   CFG                 -> CFG <9 flags of faithful_cfg> <docs_escaped> <lk_up> <url_links_service> <all sinks escaped> <all skeletons balanced> ; one  T <name> <autoescape 0|1>  per template name; END
+   TAG <is_array> <elem_str> <full_name> <major> <minor> <root> <full_namespace> <has_parent>  -> TAG <tag_id> <url>
    UNIQ <s> <s> ...    -> UNIQ <r> <r> ...   (one UniqueNameGenerator state, in order)
    NSDOC (<sn> <doc>)... -> NSDOC <doc>
    sexp:
      site := (site NS...)
      NS   := (ns name (docs (sn doc)...) (types (sn TY)...) NS...)
-     TY   := (comp full major minor root dep port|- union svc svcreq doc ATTR...) | (arr elemstr dep DT TY) | (prim s)
+     TY   := (comp full major minor root fullns hasparent dep port|- union svc svcreq doc ATTR...) | (arr elemstr dep DT TY) | (prim s)
      ATTR := (nested name doc TY) | (plain DI isfield lenbytes doc)
      DT   := (dprim sat s) | (dfix DT cap) | (dvar DT cap) | (dother s)
      DI   := (dpad s) | (dfield DT name) | (dconst DT name val) *)
@@ -69,10 +69,10 @@ let di = function
   | _ -> failwith "dinst"
 
 let rec ty = function
-  | L (A "comp" :: full :: major :: minor :: root :: dep :: port :: union :: svc :: svcreq :: doc :: attrs) ->
+  | L (A "comp" :: full :: major :: minor :: root :: fullns :: haspar :: dep :: port :: union :: svc :: svcreq :: doc :: attrs) ->
     let ti = { ti_is_array = false; ti_elem_str = []; ti_full_name = pstr (atom full);
                ti_major = z_of_int (int_of_string (atom major)); ti_minor = z_of_int (int_of_string (atom minor));
-               ti_root_ns = pstr (atom root) } in
+               ti_root_ns = pstr (atom root); ti_full_namespace = pstr (atom fullns); ti_has_parent = pbool (atom haspar) } in
     let c = { ci_t = ti; ci_deprecated = pbool (atom dep);
               ci_port = (if atom port = "-" then None else Some (z_of_int (int_of_string (atom port))));
               ci_union = pbool (atom union); ci_service = pbool (atom svc); ci_svc_request = pbool (atom svcreq);
@@ -128,12 +128,14 @@ let () =
         | ["CFG"] ->
           let c = faithful_cfg in
           print_string ("CFG " ^ String.concat " " (List.map sbool
-            [c.ae_ti; c.de_ti; c.ae_ni; c.de_ni; c.ae_sb; c.de_sb; c.ae_tb; c.de_tb; c.ae_ns; cfg_docs_escaped c]) ^ "\n");
+            [c.ae_ti; c.de_ti; c.ae_ni; c.de_ni; c.ae_sb; c.de_sb; c.ae_tb; c.de_tb; c.ae_ns; cfg_docs_escaped c; c.lk_up; url_links_service;
+             all_dsdl_text_sinks_escaped; table_balanced html_skeletons]) ^ "\n");
           List.iter (fun n -> print_string (Printf.sprintf "T %s %s\n" (show n) (sbool (autoescape_selected n)))) html_template_names;
           print_string "END\n"
-        | ["TAG"; ia; es; full; major; minor; root] ->
+        | ["TAG"; ia; es; full; major; minor; root; fullns; haspar] ->
           let ti = { ti_is_array = pbool ia; ti_elem_str = pstr es; ti_full_name = pstr full;
-                     ti_major = z_of_int (int_of_string major); ti_minor = z_of_int (int_of_string minor); ti_root_ns = pstr root } in
+                     ti_major = z_of_int (int_of_string major); ti_minor = z_of_int (int_of_string minor); ti_root_ns = pstr root;
+                     ti_full_namespace = pstr fullns; ti_has_parent = pbool haspar } in
           print_string (Printf.sprintf "TAG %s %s\n" (show (filter_tag_id ti)) (if pbool ia then "-" else show (filter_url_from_type ti)))
         | "UNIQ" :: ss ->
           let st = ref ung_reset in
